@@ -1062,3 +1062,19 @@ Example C01_f9_instance :
   | _, _ => False
   end.
 Proof. vm_compute. repeat split; reflexivity. Qed.
+
+(* the fragment F9 lies inside the class property C01 quantifies over.  The extra hypothesis - no function name contains
+   a '.' - is needed: in_f9 does not forbid a user function called "std.to_array", and well_scoped rejects a program in
+   which two functions (the injected library included) have the same full name.  (The compiler refuses such names:
+   Compiler.is_name_valid.) *)
+From Cao Require C01SimScope9.
+Theorem C01_f9_well_scoped :
+  forall M : module,
+    forallb (fun nf => negb (existsb (N.eqb 46) (fst nf))) (m_functions M) = true ->
+    C01SimDefs9.in_f9 M = true -> well_scoped M = true.
+Proof. exact C01SimScope9.f9_well_scoped. Qed.
+Print Assumptions C01_f9_well_scoped.
+Example C01_f9_instance_well_scoped :
+  forallb (fun nf => negb (existsb (N.eqb 46) (fst nf))) (m_functions f9_example) = true /\
+  C01SimDefs9.in_f9 f9_example = true /\ well_scoped f9_example = true.
+Proof. vm_compute. repeat split; reflexivity. Qed.
